@@ -116,7 +116,9 @@ type Variant struct {
 	// ExtraProviders binds that many further providers (P2, P3, ...) to the seed service, so that the module
 	// has to choose whom to ask
 	ExtraProviders int
-	stats          *Stats
+	// InitialHeight of the chain (0 = 1)
+	InitialHeight int64
+	stats         *Stats
 }
 
 // providers lists the bound provider account names of the variant.
@@ -183,8 +185,9 @@ func New(v Variant) func() (*mc.Env, mc.Driver) {
 	return func() (*mc.Env, mc.Driver) {
 		coins := sdk.NewCoins(mc.C("stake", 1_000_000_000))
 		opts := mc.EnvOptions{
-			Balances:     map[string]sdk.Coins{"A": coins, "B": coins},
-			BlockModules: []string{"random"},
+			Balances:      map[string]sdk.Coins{"A": coins, "B": coins},
+			BlockModules:  []string{"random"},
+			InitialHeight: v.InitialHeight,
 		}
 		for _, p := range v.providers() {
 			opts.Balances[p] = coins
